@@ -41,7 +41,7 @@ func main() {
 	r := vx.Start("C34", "model_checking")
 	clog.SetLogLevel("crit")
 	r.QuietStderr()
-	r.Rule = "blocks = miner transaction followed by every sequence of items (single transaction, group of 2, group of 3) with <= M member transactions; pool = every subset of the items at first look-up; the missing items arrive either all before the first tick, or a proper subset does, or none (time-out); the real light-block code (addLtBlock, buildPendBlock, buildPendList, pendBlockLoop) runs under the controlled scheduler with a virtual ticker and clock. state = (shape, presence mask, arrival mask, step). distinct = (shape, #missing, #arriving, outcome) classes"
+	r.Rule = "blocks = miner transaction followed by every sequence of items (single transaction, group of 2, group of 3) with <= M member transactions; pool = every subset of the items at first look-up; the missing items arrive either all before the first tick, or a proper subset does, or none (time-out); the real light-block code (addLtBlock, buildPendBlock, buildPendList, pendBlockLoop) runs under the controlled scheduler with a virtual ticker and clock. state = (shape, presence mask, arrival mask, step). distinct = (shape, #missing, #arriving, outcome) classes. Second part: two light blocks (heights 50..52 each) pending together for transactions that never arrive, the node height set to 49..52 before both pass the time-out in one tick: the sender is asked exactly once for every block still above the node height"
 	r.Assume = []string{"the mempool and blockchain modules are scripted responders on the real queue; the libp2p pubsub has no peers (what the protocol publishes is read from its internal outgoing channel)"}
 	if r.Fork(8) {
 		r.Floors["executions"] = 30
@@ -87,7 +87,104 @@ func main() {
 			}
 		}
 	}
+	// two light blocks pending at once: both wait for a transaction that never arrives and pass the time-out in
+	// the same tick; meanwhile the node's own height moves. Every (height of the first, height of the second,
+	// node height at the time-out) combination; the sender must be asked for exactly the blocks still ahead.
+	for _, h1 := range []int64{50, 51, 52} {
+		for _, h2 := range []int64{50, 51, 52} {
+			for _, c := range []int64{49, 50, 51, 52} {
+				idx++
+				if r.Mine(idx) && !r.Expired("pairs") {
+					runPair(r, e, peerPrefix, ltTopic, h1, h2, c, &nextTx)
+				} else {
+					nextTx += 2
+				}
+			}
+		}
+	}
 	r.Finish()
+}
+
+func runPair(r *vx.Run, e *bcx.Env, peerPrefix, ltTopic string, h1, h2, cur int64, nextTx *int) {
+	name := fmt.Sprintf("pair heights=%d,%d node-height-at-timeout=%d", h1, h2, cur)
+	kase := map[string]interface{}{"pair": []int64{h1, h2}, "height": cur}
+	mkBlock := func(h int64, salt byte) *types.Block {
+		t := bcx.Tx(*nextTx)
+		*nextTx++
+		b := &types.Block{Height: h, BlockTime: 1700000000 + int64(salt), ParentHash: bytes.Repeat([]byte{7 + salt}, 32), StateHash: bytes.Repeat([]byte{9}, 32), Txs: []*types.Transaction{bcx.Tx(1), t}}
+		b.TxHash = merkle.CalcMerkleRoot(e.Cfg, b.Height, b.Txs)
+		return b
+	}
+	b1, b2 := mkBlock(h1, 1), mkBlock(h2, 2)
+	var bad string
+	fail := func(f string, a ...interface{}) {
+		if bad == "" {
+			bad = fmt.Sprintf(f, a...)
+		}
+	}
+	res := vrt.Execute(func() {
+		e.Reset()
+		v := e.New(1000)
+		v.SetHeight(49)
+		out := v.Outgoing()
+		v.Receive(ltTopic, v.BuildLight(types.Clone(b1).(*types.Block)), e.Peer, e.Peer)
+		v.Receive(ltTopic, v.BuildLight(types.Clone(b2).(*types.Block)), e.Peer, e.Peer)
+		e.SyncBlockchain()
+		if n := len(e.PostedBlocks()); n != 0 {
+			fail("%d blocks were handed to the blockchain although transactions are missing", n)
+			return
+		}
+		if v.PendLen() != 2 {
+			r.Count("pairs_not_both_pending_not_judged", 1)
+			return
+		}
+		v.SetHeight(cur)
+		vtime.Sleep(1750 * vtime.Millisecond)
+		e.SyncBlockchain()
+		if n := len(e.PostedBlocks()); n != 0 {
+			fail("%d blocks were handed to the blockchain although transactions never arrived", n)
+		}
+		got := map[int64]int{}
+		for _, p := range bcx.Drain(v, out) {
+			pm, ok := p.Msg.(*types.PeerPubSubMsg)
+			var req types.ReqInt
+			if !ok || p.Topic != peerPrefix+e.Peer.String() || pm.MsgID != broadcast.VerifBlockReqMsgID || types.Decode(pm.ProtoMsg, &req) != nil {
+				fail("unexpected publication on topic %s", p.Topic)
+				continue
+			}
+			got[req.Height]++
+		}
+		want := map[int64]int{}
+		for _, h := range []int64{h1, h2} {
+			if h > cur {
+				want[h]++
+			}
+		}
+		for h, n := range want {
+			if got[h] != n {
+				fail("after the time-out the sender was asked %d times for the full block of height %d (node height %d), expected %d", got[h], h, cur, n)
+			}
+		}
+		for h, n := range got {
+			if h > cur && want[h] != n {
+				fail("after the time-out the sender was asked %d times for height %d, expected %d", n, h, want[h])
+			}
+		}
+		if v.PendLen() != 0 {
+			fail("%d timed-out light blocks are still pending", v.PendLen())
+		}
+	}, nil, 20000, false, nil)
+	r.Count("executions", 1)
+	r.Count("pair_executions", 1)
+	r.Count("transitions", int64(res.Steps))
+	r.Seen("states", name)
+	if len(res.Panics) > 0 {
+		bad = "panic: " + res.Panics[0]
+	}
+	if bad != "" {
+		r.Violate("lightblock-pair:"+vx.Norm(bad, 60), name+": "+bad, kase, nil)
+	}
+	r.SampleN(5, kase)
 }
 
 func sameBlock(cfg *types.Chain33Config, a, b *types.Block) string {
